@@ -598,6 +598,9 @@ def run(ctx):
                  maxe, total, " + a seeded sample of %d 4-edit cases" % extra if extra else "",
                  "a seeded sample of the transition-cover paths" if ctx.quick else "a transition cover"))
     ctx.assume("unshelve is applied to the unchanged result of the shelve; one representative per change kind")
+    ctx.assume("iter_shelvable never offers a pure executable-bit change (nor an edit of a file that was unversioned with "
+               "rm --keep): such a change cannot be part of any selection and the law requires it to STAY in the tree; "
+               "that it cannot be shelved at all is not judged")
 
 
 def _brief(p):
